@@ -17,6 +17,7 @@ func init() {
 			{Name: "roundtrip64@plain,checkptr", Quick: 1200, Thorough: 60000, Run: c18RoundTrip},
 			{Name: "prefixes64@plain,checkptr", Quick: 160, Thorough: 6000, Run: c18Prefixes},
 			{Name: "corrupt64@plain,checkptr", Quick: 4000, Thorough: 200000, Run: c18Corrupt},
+			{Name: "every-bucket-count@plain,checkptr", ExhaustiveN: bucketCounts, RunIndexed: c18EveryBucketCount},
 			{Name: "independent-bitmaps-concurrently@race", Quick: 6, Thorough: 200, Run: func(c *Ctx) { concIndependent(c, "portable64") }},
 		},
 	})
